@@ -4,7 +4,8 @@
    transaction level; a slot that was never loaded is cold). The gas charged for an access is a
    function of the is_cold answer (C14: warm_cold_cost, sload_cost, sstore_cost, call_cost). *)
 From RevmV Require Import Base.Word Model.Host Spec.AccessSpec Proofs.HostView Proofs.HostOps
-  Proofs.HostMain Proofs.AccessProofs Proofs.AccessRefine Proofs.AccessRefine3.
+  Proofs.HostMain Proofs.AccessProofs Proofs.AccessRefine Proofs.AccessRefine3
+  Spec.GateSpec Spec.TxWarmSpec Spec.AccessTrace Proofs.AccessTraceProofs.
 Local Open Scope Z_scope.
 
 (* An address is reported cold exactly on its first access: the answer is the negation of the
@@ -90,6 +91,86 @@ Theorem C34_access_list_entry_extends_sets :
     R d (initial_account_load d s a ks)
         (mkAS (upd (as_acc w) a true) (fun x k => as_slot w x k || ((x =? a) && mem_z ks k))).
 Proof. exact R_initial_load. Qed.
+
+(* WHOLE TRANSACTIONS. The oracle that judges the charges of real transactions (Corr/C34t.v:
+   trace_run over the inspector's trace, started from tx_initial_sets) is the same specification:
+   for every trace, every delegation map and every sets / snapshots, replaying the trace gives the
+   final sets and the is_cold answers that spec_run gives on the translated operation history. *)
+Theorem C34_trace_oracle_is_the_accessed_set_spec :
+  forall dl tr ws,
+    fst (trace_run dl ws tr) = fst (spec_run ws (trace_hops tr) (trace_anns dl tr)) /\
+    concat (snd (trace_run dl ws tr)) = concat (snd (spec_run ws (trace_hops tr) (trace_anns dl tr))).
+Proof. exact trace_run_is_spec_run. Qed.
+
+(* Hence the model answers, event by event, what the whole-transaction oracle expects: for every
+   trace whose translated history is within the contract of C06 and whose delegation facts are
+   the model's (model_anns), started in a model state related to the sets w. *)
+Theorem C34_model_answers_what_the_trace_oracle_expects :
+  forall d dl tr s w sc',
+    WF d s -> R d s w -> contract d (s, []) (trace_hops tr) ->
+    run_hops d (s, []) (trace_hops tr) = Some sc' ->
+    model_anns d (s, []) (trace_hops tr) = trace_anns dl tr ->
+    concat (model_trace d (s, []) (trace_hops tr)) = concat (snd (trace_run dl (w, []) tr)).
+Proof.
+  intros d dl tr s w sc' W Rw C Run A.
+  rewrite <- (C34_answers_refine_accessed_sets d (trace_hops tr) s w sc' W Rw C Run), A.
+  symmetry. apply trace_run_is_spec_run.
+Qed.
+
+(* the initial sets of a transaction are an instance of the specification's initial sets: the
+   EIP rule list of Spec/TxWarmSpec.v as the pre-warmed predicate, plus the access list *)
+Theorem C34_tx_initial_sets_are_initial_sets :
+  forall tx, tx_initial_sets tx = initial_sets (tx_prewarmed tx) (tw_al tx).
+Proof. reflexivity. Qed.
+
+(* the rule list, clause by clause (each address class is in the set exactly from its fork on) *)
+Theorem C34_tx_rules :
+  forall tx,
+    tx_prewarmed tx (tw_sender tx) = true /\
+    tx_prewarmed tx (tw_dest tx) = true /\
+    (forall a, is_precompile (tw_spec tx) a = true -> tx_prewarmed tx a = true) /\
+    (enabled (tw_spec tx) SHANGHAI = true -> tx_prewarmed tx (tw_coinbase tx) = true) /\
+    (forall a, prague tx = true -> In a (fst (tx_after_auths tx)) -> tx_prewarmed tx a = true) /\
+    (forall t, prague tx = true -> tw_is_create tx = false -> deleg_of tx (tw_dest tx) = Some t ->
+               tx_prewarmed tx t = true) /\
+    (forall a k, as_slot (tx_initial_sets tx) a k = al_slot (tw_al tx) a k) /\
+    (* nothing else: an address outside all clauses is cold at the start *)
+    (forall a, a <> tw_sender tx -> a <> tw_dest tx -> is_precompile (tw_spec tx) a = false ->
+               (enabled (tw_spec tx) SHANGHAI = true -> a <> tw_coinbase tx) ->
+               (prague tx = true -> a <> HISTORY_STORAGE_ADDRESS /\ ~ In a (fst (tx_after_auths tx)) /\
+                                    deleg_of tx (tw_dest tx) <> Some a) ->
+               al_acc (tw_al tx) a = false -> as_acc (tx_initial_sets tx) a = false).
+Proof. exact tx_rules. Qed.
+
+(* a Shanghai transaction: coinbase warm, an unrelated address cold, an access-list slot warm;
+   the same coinbase is cold under London *)
+Example C34_example_tx_sets :
+  let tx s := mkTxW s 1 100 false 200 300 [(400, [7])] [] [] in
+  as_acc (tx_initial_sets (tx SHANGHAI)) 300 = true /\ as_acc (tx_initial_sets (tx LONDON)) 300 = false /\
+  as_acc (tx_initial_sets (tx SHANGHAI)) 500 = false /\ as_slot (tx_initial_sets (tx SHANGHAI)) 400 7 = true /\
+  as_acc (tx_initial_sets (tx CANCUN)) 0x0a = true /\ as_acc (tx_initial_sets (tx SHANGHAI)) 0x0a = false.
+Proof. vm_compute. repeat split. Qed.
+
+(* EIP-7702: a valid tuple warms its authority and (being tx.to) its delegation target; a tuple
+   for another chain warms nothing; a tuple with a wrong nonce still warms the authority *)
+Example C34_example_7702_sets :
+  let tx := mkTxW PRAGUE 1 100 false 600 300 []
+              [mkAuth 1 700 0 (Some 600); mkAuth 5 701 0 (Some 601); mkAuth 1 702 9 (Some 602)] [] in
+  as_acc (tx_initial_sets tx) 600 = true /\ as_acc (tx_initial_sets tx) 700 = true /\
+  as_acc (tx_initial_sets tx) 601 = false /\ as_acc (tx_initial_sets tx) 602 = true /\
+  as_acc (tx_initial_sets tx) 702 = false /\ deleg_of tx 600 = Some 700 /\ deleg_of tx 602 = None.
+Proof. vm_compute. repeat split. Qed.
+
+(* an access inside a frame that reverts is forgotten, a pre-warmed address is not: the charges
+   the oracle accepts are 2600, (revert), 2600 again, and 100 for the coinbase throughout *)
+Example C34_example_trace :
+  let tx := mkTxW SHANGHAI 1 100 false 200 300 [] [] [] in
+  let tr := [TOpen; TCall 0xf1 201 true 2600; TOpen; TAcct 0x31 500 50000 2600 0; TAcct 0x31 300 47400 100 0;
+             TClose false; TAcct 0x31 500 90000 2600 0; TAcct 0x31 500 87400 100 0; TAcct 0x31 300 87300 100 0; TClose true] in
+  events_ok tr (snd (trace_run (deleg_of tx) (tx_initial_sets tx, []) tr)) = true /\
+  events_ok [TOpen; TAcct 0x31 500 50000 100 0; TClose true]
+            (snd (trace_run (deleg_of tx) (tx_initial_sets tx, []) [TOpen; TAcct 0x31 500 50000 100 0; TClose true])) = false.
+Proof. vm_compute. split; reflexivity. Qed.
 
 Example C34_example_first_access_cold_second_warm :
   let d := mkDb (fun _ => None) (fun _ _ => 0) (fun _ => None) in
